@@ -117,7 +117,7 @@ class Impl:
             return ("raise", common.exn_name(ex))
 
 
-class _Hang(Exception):
+class _Hang(BaseException):
     """an implementation call did not return (the property demands termination)"""
 
 
